@@ -438,12 +438,12 @@ func genVarBinding(repo string) (string, error) {
 				}
 				for i, want := range vbPackageVarRefHead {
 					if vs.src(pst[i]) != want {
-						return "", vs.errf(pst[i], "statement of packageVarRef is not `"+want+"`")
+						return "", vs.errf(pst[i], "statement of packageVarRef is not `%s`", want)
 					}
 				}
 				for i, want := range vbPackageVarRefTail {
 					if st := pst[len(pst)-len(vbPackageVarRefTail)+i]; vs.src(st) != want {
-						return "", vs.errf(st, "statement of packageVarRef is not `"+want+"`")
+						return "", vs.errf(st, "statement of packageVarRef is not `%s`", want)
 					}
 				}
 				for _, mid := range pst[len(vbPackageVarRefHead) : len(pst)-len(vbPackageVarRefTail)] {
